@@ -6,6 +6,13 @@
 //! (b) cell writer: histories of SGR sequences (standard spellings) and text written through
 //!     `CellWrite::tty_writer` in arbitrary chunks; the faces of the produced cells must follow
 //!     the reference SGR state machine (`refsgr`), starting from a generated initial face.
+//!     The parent of the writer is a recording target that either accepts every cell or refuses
+//!     cells (`Refuse`: out of space after k cells until the application rewinds it through
+//!     `parent()`, or a clipped target showing the first columns of each line); whatever the
+//!     parent refuses, the cells it does accept must carry the face of the state machine over
+//!     all bytes written so far.
+//! (a') sinks with short writes: the round-trip stream of (a) is also encoded into a writer that
+//!     accepts a few bytes per `write` call; what reaches it must decode to the same history.
 
 use crate::c05::{self, FaceSpec, FmSpec};
 use crate::engine::*;
@@ -34,6 +41,21 @@ pub enum WItem {
     Text(String),
 }
 
+/// how the parent of the cell writer treats the cells it is offered (`CellWrite::put_cell`
+/// returns false = "out of space")
+#[derive(Clone, Copy, Debug, Default, PartialEq, Eq, Serialize, Deserialize)]
+pub enum Refuse {
+    /// accepts every cell (collect-everything target such as `Text`)
+    #[default]
+    Never,
+    /// a full target: accepts `k` cells, then refuses until the application rewinds it
+    /// (as `writer.parent().set_cursor(origin)` does for a surface writer)
+    Full(u8),
+    /// a clipped target: lines of `width` cells of which only the first `visible` are
+    /// accepted, the others refused (a rewind starts a new line)
+    Clip { width: u8, visible: u8 },
+}
+
 #[derive(Clone, Debug, Serialize, Deserialize)]
 pub enum Case {
     /// `failed_before`: the encoder first encoded item `i % len` into a writer that refuses
@@ -43,8 +65,23 @@ pub enum Case {
         cuts: Vec<u16>,
         #[serde(default)]
         failed_before: Option<(u8, u8)>,
+        /// the same items are also encoded (fresh encoder, same history) into a writer that
+        /// accepts at most `pattern[call % len]` bytes per write call (see c05::ShortSink)
+        #[serde(default)]
+        short_sink: Option<Vec<u8>>,
     },
-    Writer { initial: FaceSpec, items: Vec<WItem>, cuts: Vec<u16> },
+    /// `refuse`: the parent's behaviour; `rewinds`: between the writes, before item
+    /// `r % (len + 1)`, the harness rewinds the parent through `writer.parent()` (only generated
+    /// for refusing parents; a rewind is always a write boundary)
+    Writer {
+        initial: FaceSpec,
+        items: Vec<WItem>,
+        cuts: Vec<u16>,
+        #[serde(default)]
+        refuse: Refuse,
+        #[serde(default)]
+        rewinds: Vec<u8>,
+    },
 }
 
 fn esc(b: &[u8]) -> String {
@@ -67,40 +104,9 @@ fn expected_for_face(f: &FaceSpec) -> FaceModify {
     }
 }
 
-fn check_roundtrip(items: &[RtItem], cuts: &[u16], failed_before: Option<(u8, u8)>) -> Outcome {
-    let caps = TerminalCaps { depth: ColorDepth::TrueColor, glyphs: false, kitty_keyboard: false };
-    let mut enc = TTYEncoder::new(caps);
-    if let Some((i, room)) = failed_before {
-        let cmd = match &items[i as usize % items.len()] {
-            RtItem::Face(f) => TerminalCommand::Face(f.to_face()),
-            RtItem::Modify(m) => TerminalCommand::FaceModify(m.to_lib()),
-            RtItem::Char(c) => TerminalCommand::Char(*c),
-        };
-        let mut w = c05::RefusingWriter { room: room as usize };
-        let _ = guard_val(|| enc.encode(&mut w, cmd))?;
-    }
-    let mut bytes = Vec::new();
-    let mut expected: Vec<TerminalCommand> = Vec::new();
-    for item in items {
-        let cmd = match item {
-            RtItem::Face(f) => {
-                expected.push(TerminalCommand::FaceModify(expected_for_face(f)));
-                TerminalCommand::Face(f.to_face())
-            }
-            RtItem::Modify(m) => {
-                if !m.is_noop() {
-                    expected.push(TerminalCommand::FaceModify(m.to_lib()));
-                }
-                TerminalCommand::FaceModify(m.to_lib())
-            }
-            RtItem::Char(c) => {
-                expected.push(TerminalCommand::Char(*c));
-                TerminalCommand::Char(*c)
-            }
-        };
-        guard_val(|| enc.encode(&mut bytes, cmd))?
-            .map_err(|e| Fail::new("roundtrip/encode-error", format!("{e:?}")))?;
-    }
+/// decode `bytes` with the library's command decoder as a single buffer, in the generated
+/// chunks and byte at a time; Err((class, message)) if any of them differs from `expected`
+fn decode_check(bytes: &[u8], cuts: &[u16], expected: &[TerminalCommand], items: &[RtItem]) -> Result<Result<(), (&'static str, String)>, Fail> {
     let run = |chunks: &[&[u8]]| -> Result<Vec<TerminalCommand>, Fail> {
         let mut dec = TTYCommandDecoder::new();
         let mut out = Vec::new();
@@ -113,8 +119,8 @@ fn check_roundtrip(items: &[RtItem], cuts: &[u16], failed_before: Option<(u8, u8
     };
     let cutpos = hostile::cuts_from(cuts, bytes.len());
     let variants: Vec<(&str, Vec<&[u8]>)> = vec![
-        ("single buffer", vec![&bytes[..]]),
-        ("generated chunks", hostile::split(&bytes, &cutpos)),
+        ("single buffer", vec![bytes]),
+        ("generated chunks", hostile::split(bytes, &cutpos)),
         ("byte at a time", bytes.chunks(1).collect()),
     ];
     for (what, chunks) in variants {
@@ -127,16 +133,84 @@ fn check_roundtrip(items: &[RtItem], cuts: &[u16], failed_before: Option<(u8, u8
                 Some(RtItem::Char(_)) => "char",
                 None => "extra",
             };
-            return Err(Fail::new(
-                format!("roundtrip/{class}"),
+            return Ok(Err((
+                class,
                 format!(
                     "bytes \"{}\" ({what}): item #{idx} read back as {:?}, written {:?}; items {:?}",
-                    esc(&bytes),
+                    esc(bytes),
                     got.get(idx),
                     expected.get(idx),
                     items
                 ),
-            ));
+            )));
+        }
+    }
+    Ok(Ok(()))
+}
+
+fn check_roundtrip(items: &[RtItem], cuts: &[u16], failed_before: Option<(u8, u8)>, short_sink: Option<&[u8]>) -> Outcome {
+    let caps = TerminalCaps { depth: ColorDepth::TrueColor, glyphs: false, kitty_keyboard: false };
+    let to_cmd = |item: &RtItem| match item {
+        RtItem::Face(f) => TerminalCommand::Face(f.to_face()),
+        RtItem::Modify(m) => TerminalCommand::FaceModify(m.to_lib()),
+        RtItem::Char(c) => TerminalCommand::Char(*c),
+    };
+    // an encoder with the case's history
+    let encoder = || -> Result<TTYEncoder, Fail> {
+        let mut enc = TTYEncoder::new(caps.clone());
+        if let Some((i, room)) = failed_before {
+            let cmd = to_cmd(&items[i as usize % items.len()]);
+            let mut w = c05::RefusingWriter { room: room as usize };
+            let _ = guard_val(|| enc.encode(&mut w, cmd))?;
+        }
+        Ok(enc)
+    };
+    let mut enc = encoder()?;
+    let mut bytes = Vec::new();
+    let mut expected: Vec<TerminalCommand> = Vec::new();
+    for item in items {
+        match item {
+            RtItem::Face(f) => expected.push(TerminalCommand::FaceModify(expected_for_face(f))),
+            RtItem::Modify(m) => {
+                if !m.is_noop() {
+                    expected.push(TerminalCommand::FaceModify(m.to_lib()));
+                }
+            }
+            RtItem::Char(c) => expected.push(TerminalCommand::Char(*c)),
+        }
+        let cmd = to_cmd(item);
+        guard_val(|| enc.encode(&mut bytes, cmd))?
+            .map_err(|e| Fail::new("roundtrip/encode-error", format!("{e:?}")))?;
+    }
+    if let Err((class, msg)) = decode_check(&bytes, cuts, &expected, items)? {
+        return Err(Fail::new(format!("roundtrip/{class}"), msg));
+    }
+    // the writer's side of "every chunking of the written bytes": a sink that takes only a
+    // prefix per write call. encode returned Ok, so what reached the sink is what was written
+    let mut short_differs = false;
+    if let Some(pattern) = short_sink {
+        let mut enc = encoder()?;
+        let mut sink = c05::ShortSink::new(pattern);
+        for item in items {
+            let cmd = to_cmd(item);
+            guard_val(|| enc.encode(&mut sink, cmd))?.map_err(|e| {
+                Fail::new(
+                    "roundtrip/short-write-sink/encode-error",
+                    format!("{item:?} into a writer accepting at most {pattern:?} bytes per write call (never failing): {e:?}"),
+                )
+            })?;
+        }
+        if sink.data != bytes {
+            short_differs = true;
+            if let Err((class, msg)) = decode_check(&sink.data, cuts, &expected, items)? {
+                return Err(Fail::new(
+                    format!("roundtrip/short-write-sink/{class}"),
+                    format!(
+                        "writer accepting at most {pattern:?} bytes per write call (cyclic), encode returned Ok for every item; a Vec receives \"{}\"; what reached the writer: {msg}",
+                        esc(&bytes)
+                    ),
+                ));
+            }
         }
     }
     let nt = items.iter().any(|i| match i {
@@ -151,15 +225,41 @@ fn check_roundtrip(items: &[RtItem], cuts: &[u16], failed_before: Option<(u8, u8
         .label("roundtrip")
         .label_if(items.iter().any(|i| matches!(i, RtItem::Char(c) if (*c as u32) >= 0x80)), "non-ascii-char")
         .label_if(items.iter().any(|i| matches!(i, RtItem::Modify(m) if m.underline_color.is_some())), "underline-colour")
-        .label_if(nt, "colour-followed-by-parameter"))
+        .label_if(nt, "colour-followed-by-parameter")
+        .label_if(short_sink.is_some(), "short-write-sink")
+        .label_if(short_sink.is_some_and(|p| p.iter().all(|l| *l <= 3)), "short-write-sink:1-3-bytes")
+        .label_if(short_differs, "short-write-sink:other-bytes-same-meaning"))
 }
 
+/// recording parent of the cell writer; `cells` = the character cells it accepted
 #[derive(Default)]
 struct Recorder {
     face: Face,
     wraps: bool,
     cells: Vec<(char, Face)>,
     other: usize,
+    refuse: Refuse,
+    /// cells offered since the last rewind
+    offered: usize,
+    refused: usize,
+}
+
+impl Refuse {
+    /// is the cell offered as number `offered` (from 0) since the last rewind accepted?
+    fn accepts(self, offered: usize) -> bool {
+        match self {
+            Refuse::Never => true,
+            Refuse::Full(k) => offered < k as usize,
+            Refuse::Clip { width, visible } => offered % (width as usize).max(1) < visible as usize,
+        }
+    }
+}
+
+impl Recorder {
+    /// what an application does through `writer.parent()` to reuse a full target
+    fn rewind(&mut self) {
+        self.offered = 0;
+    }
 }
 
 impl CellWrite for Recorder {
@@ -176,6 +276,12 @@ impl CellWrite for Recorder {
         std::mem::replace(&mut self.wraps, wraps)
     }
     fn put_cell(&mut self, cell: Cell) -> bool {
+        let accept = self.refuse.accepts(self.offered);
+        self.offered += 1;
+        if !accept {
+            self.refused += 1;
+            return false;
+        }
         match cell.kind() {
             CellKind::Char(c) => self.cells.push((*c, cell.face())),
             _ => self.other += 1,
@@ -184,60 +290,161 @@ impl CellWrite for Recorder {
     }
 }
 
-fn check_writer(initial: &FaceSpec, items: &[WItem], cuts: &[u16]) -> Outcome {
+enum Step<'a> {
+    Write(&'a [u8]),
+    Rewind,
+}
+
+/// the writes of one chunking (`cuts` = sorted cut offsets) with the rewinds (sorted byte
+/// offsets) in between; a rewind is always a write boundary
+fn script<'a>(bytes: &'a [u8], cuts: &[usize], rewinds: &[usize]) -> Vec<Step<'a>> {
+    let mut events: Vec<(usize, bool)> = cuts.iter().map(|c| ((*c).min(bytes.len()), false)).collect();
+    events.extend(rewinds.iter().map(|r| ((*r).min(bytes.len()), true)));
+    events.sort();
+    let mut steps = Vec::new();
+    let mut prev = 0;
+    for (at, rewind) in events {
+        // duplicate cuts give empty writes, as in `hostile::split`
+        if !rewind || at > prev {
+            steps.push(Step::Write(&bytes[prev..at]));
+            prev = at;
+        }
+        if rewind {
+            steps.push(Step::Rewind);
+        }
+    }
+    steps.push(Step::Write(&bytes[prev..]));
+    steps
+}
+
+/// first cell of `got` that cannot be placed when `got` is matched, in order, into `expected`
+/// (None: `got` is a subsequence of `expected`)
+fn first_unplaced<T>(got: &[T], expected: &[T], same: impl Fn(&T, &T) -> bool) -> Option<usize> {
+    let mut j = 0;
+    for (i, g) in got.iter().enumerate() {
+        while j < expected.len() && !same(&expected[j], g) {
+            j += 1;
+        }
+        if j == expected.len() {
+            return Some(i);
+        }
+        j += 1;
+    }
+    None
+}
+
+fn check_writer(initial: &FaceSpec, items: &[WItem], cuts: &[u16], refuse: Refuse, rewinds: &[u8]) -> Outcome {
+    let mut rewind_items: Vec<usize> = rewinds.iter().map(|r| *r as usize % (items.len() + 1)).collect();
+    rewind_items.sort();
     let mut bytes = Vec::new();
     let mut st = SgrState::from_face(&initial.to_face());
     let mut expected: Vec<(char, Face)> = Vec::new();
-    for item in items {
+    let mut rewind_at: Vec<usize> = Vec::new();
+    // model of the parent if every character is offered (for the labels only):
+    // 0 nothing refused yet, 1 a cell was refused, 2 .. and an SGR sequence followed,
+    // 3 .. and a cell was accepted after that
+    let (mut offered, mut stage) = (0usize, 0u8);
+    for (i, item) in items.iter().enumerate() {
+        for _ in rewind_items.iter().filter(|r| **r == i) {
+            rewind_at.push(bytes.len());
+            offered = 0;
+        }
         match item {
             WItem::Sgr(params) => {
                 bytes.extend(b"\x1b[");
                 bytes.extend(refsgr::print(params).as_bytes());
                 bytes.push(b'm');
                 st.apply_all(params);
+                if stage == 1 {
+                    stage = 2;
+                }
             }
             WItem::Text(s) => {
                 bytes.extend(s.as_bytes());
                 for c in s.chars() {
                     expected.push((c, st.to_face()));
+                    match (refuse.accepts(offered), stage) {
+                        (false, 0) => stage = 1,
+                        (true, 2) => stage = 3,
+                        _ => {}
+                    }
+                    offered += 1;
                 }
             }
         }
     }
-    let run = |chunks: &[&[u8]]| -> Result<Vec<(char, Face)>, Fail> {
-        let mut rec = Recorder { face: initial.to_face(), ..Default::default() };
+    rewind_at.extend(rewind_items.iter().filter(|r| **r == items.len()).map(|_| bytes.len()));
+    let run = |steps: &[Step]| -> Result<Vec<(char, Face)>, Fail> {
+        let mut rec = Recorder { face: initial.to_face(), refuse, ..Default::default() };
         {
             let mut w = rec.by_ref().tty_writer();
-            for c in chunks {
-                w.write_all(c)
-                    .map_err(|e| Fail::new("writer/io-error", format!("write failed: {e:?}")))?;
+            for step in steps {
+                match step {
+                    Step::Write(c) => w
+                        .write_all(c)
+                        .map_err(|e| Fail::new("writer/io-error", format!("write failed: {e:?}")))?,
+                    Step::Rewind => w.parent().rewind(),
+                }
             }
         }
         Ok(rec.cells)
     };
     let cutpos = hostile::cuts_from(cuts, bytes.len());
-    let variants: Vec<(&str, Vec<&[u8]>)> = vec![
-        ("single write", vec![&bytes[..]]),
-        ("generated chunks", hostile::split(&bytes, &cutpos)),
-        ("byte at a time", bytes.chunks(1).collect()),
+    let every: Vec<usize> = (1..bytes.len()).collect();
+    let variants: Vec<(&str, Vec<Step>)> = vec![
+        ("single write", script(&bytes, &[], &rewind_at)),
+        ("generated chunks", script(&bytes, &cutpos, &rewind_at)),
+        ("byte at a time", script(&bytes, &every, &rewind_at)),
     ];
-    for (what, chunks) in variants {
-        let got = guard(|| run(&chunks))?;
-        if got != expected {
-            let idx = got.iter().zip(expected.iter()).position(|(a, b)| a != b).unwrap_or(got.len().min(expected.len()));
-            let class = match (got.get(idx), expected.get(idx)) {
-                (Some((gc, _)), Some((wc, _))) if gc != wc => "text",
-                (Some(_), Some(_)) => "face",
-                _ => "cell-count",
+    for (what, steps) in variants {
+        let got = guard(|| run(&steps))?;
+        if refuse == Refuse::Never {
+            // the parent accepts everything: exactly the cells of the history
+            if got != expected {
+                let idx = got.iter().zip(expected.iter()).position(|(a, b)| a != b).unwrap_or(got.len().min(expected.len()));
+                let class = match (got.get(idx), expected.get(idx)) {
+                    (Some((gc, _)), Some((wc, _))) if gc != wc => "text",
+                    (Some(_), Some(_)) => "face",
+                    _ => "cell-count",
+                };
+                return Err(Fail::new(
+                    format!("writer/{class}"),
+                    format!(
+                        "bytes \"{}\" from initial face {:?} ({what}): cell #{idx} is {:?}, SGR semantics give {:?}",
+                        esc(&bytes),
+                        initial.to_face(),
+                        got.get(idx),
+                        expected.get(idx)
+                    ),
+                ));
+            }
+        } else if let Some(idx) = first_unplaced(&got, &expected, |a, b| a == b) {
+            // the statement does not say which characters a writer still offers to a parent
+            // that refused one, so only this is required: the cells the parent accepted are,
+            // in order, cells of the history with the face SGR semantics give them there
+            let class = match first_unplaced(&got[..=idx], &expected, |a, b| a.0 == b.0) {
+                None => "face",
+                Some(_) => "text",
             };
+            let candidates: Vec<&Face> = expected.iter().filter(|(c, _)| *c == got[idx].0).map(|(_, f)| f).collect();
+            let writes: Vec<String> = steps
+                .iter()
+                .map(|s| match s {
+                    Step::Write(c) => format!("\"{}\"", esc(c)),
+                    Step::Rewind => "<rewind>".to_string(),
+                })
+                .collect();
             return Err(Fail::new(
-                format!("writer/{class}"),
+                format!("writer/refusing-parent/{class}"),
                 format!(
-                    "bytes \"{}\" from initial face {:?} ({what}): cell #{idx} is {:?}, SGR semantics give {:?}",
-                    esc(&bytes),
+                    "parent {:?}, initial face {:?}, writes ({what}) [{}]: accepted cell #{idx} {:?} (after {:?}) is not a cell of the written history in this order; SGR semantics over all bytes written give {:?} the face(s) {:?}",
+                    refuse,
                     initial.to_face(),
-                    got.get(idx),
-                    expected.get(idx)
+                    writes.join(", "),
+                    got[idx],
+                    &got[idx.saturating_sub(2)..idx],
+                    got[idx].0,
+                    candidates
                 ),
             ));
         }
@@ -271,7 +478,11 @@ fn check_writer(initial: &FaceSpec, items: &[WItem], cuts: &[u16]) -> Outcome {
         .label_if(set_clear, "set-then-clear")
         .label_if(styles.len() >= 2, "two-underline-styles")
         .label_if(strike, "strike")
-        .label_if(flat.iter().any(|p| matches!(p, SgrParam::Rgb { .. } | SgrParam::Idx { .. } | SgrParam::Named { .. })), "colours"))
+        .label_if(flat.iter().any(|p| matches!(p, SgrParam::Rgb { .. } | SgrParam::Idx { .. } | SgrParam::Named { .. })), "colours")
+        .label_if(refuse != Refuse::Never, "refusing-parent")
+        .label_if(stage >= 1, "refusing-parent:cell-refused")
+        .label_if(stage >= 3, "refusing-parent:sgr-then-accepted-cell-after-refusal")
+        .label_if(refuse != Refuse::Never && !rewind_at.is_empty(), "refusing-parent:rewound"))
 }
 
 impl Property for C06 {
@@ -303,21 +514,32 @@ impl Property for C06 {
             3 => ch.clone().prop_map(RtItem::Char),
         ];
         let cuts = || proptest::collection::vec(any::<u16>(), 0..6);
-        let roundtrip = (proptest::collection::vec(rt_item, 1..8), cuts(), proptest::option::weighted(0.2, (any::<u8>(), 0u8..48)))
-            .prop_map(|(items, cuts, failed_before)| Case::RoundTrip { items, cuts, failed_before });
+        let roundtrip = (
+            proptest::collection::vec(rt_item, 1..8),
+            cuts(),
+            proptest::option::weighted(0.2, (any::<u8>(), 0u8..48)),
+            proptest::option::weighted(0.25, c05::short_sink_pattern()),
+        )
+            .prop_map(|(items, cuts, failed_before, short_sink)| Case::RoundTrip { items, cuts, failed_before, short_sink });
         let witem = prop_oneof![
             3 => refsgr::params_strategy(false).prop_map(WItem::Sgr),
             2 => proptest::collection::vec(ch, 1..5).prop_map(|v| WItem::Text(v.into_iter().collect())),
         ];
-        let writer = (c05::face_spec(), proptest::collection::vec(witem, 1..12), cuts())
-            .prop_map(|(initial, items, cuts)| Case::Writer { initial, items, cuts });
+        let rewinds = |n| proptest::collection::vec(any::<u8>(), 0..n);
+        let parent = prop_oneof![
+            6 => Just((Refuse::Never, Vec::new())),
+            2 => ((0u8..12).prop_map(Refuse::Full), rewinds(4)),
+            2 => ((2u8..8, any::<u8>()).prop_map(|(width, v)| Refuse::Clip { width, visible: 1 + v % (width - 1) }), rewinds(3)),
+        ];
+        let writer = (c05::face_spec(), proptest::collection::vec(witem, 1..12), cuts(), parent)
+            .prop_map(|(initial, items, cuts, (refuse, rewinds))| Case::Writer { initial, items, cuts, refuse, rewinds });
         prop_oneof![1 => roundtrip, 1 => writer].boxed()
     }
 
     fn check(&self, case: &Case) -> Outcome {
         match case {
-            Case::RoundTrip { items, cuts, failed_before } => check_roundtrip(items, cuts, *failed_before),
-            Case::Writer { initial, items, cuts } => check_writer(initial, items, cuts),
+            Case::RoundTrip { items, cuts, failed_before, short_sink } => check_roundtrip(items, cuts, *failed_before, short_sink.as_deref()),
+            Case::Writer { initial, items, cuts, refuse, rewinds } => check_writer(initial, items, cuts, *refuse, rewinds),
         }
     }
 
@@ -326,7 +548,7 @@ impl Property for C06 {
     }
 
     fn rule(&self) -> String {
-        "(a) 50%: 1-7 items out of Face (optional opaque fg/bg x 32 flag subsets x 6 underline styles) / FaceModify (every field combination incl. underline colour, reset) / Char (any scalar except ESC) encoded by one TTYEncoder in true colour and decoded by TTYCommandDecoder as a single buffer, in 1-6 generated chunks and byte at a time; expected = the same face changes (reset + every expressible field for Face) and characters. (b) 50%: histories of 1-11 SGR sequences (1-5 parameters in standard spelling: 0, empty, 1/22, 3/23, 4, 4:0-4:5, 21, 24, 5/25, 9/29, 30-37, 40-47, 90-97, 100-107, 38/48/58 in all four spellings) and text, written through CellWrite::tty_writer from a generated initial face with the same three chunkings; every produced cell must carry the face of the reference SGR state machine. non-trivial = (a) a colour followed by at least one more parameter, (b) text plus a set followed later by a clear of the same attribute, two underline styles, or strike".into()
+        "(a) 50%: 1-7 items out of Face (optional opaque fg/bg x 32 flag subsets x 6 underline styles) / FaceModify (every field combination incl. underline colour, reset) / Char (any scalar except ESC) encoded by one TTYEncoder in true colour (in one case of five after a failed encode into a writer refusing after 0-47 bytes) and decoded by TTYCommandDecoder as a single buffer, in 1-6 generated chunks and byte at a time; expected = the same face changes (reset + every expressible field for Face) and characters. In one round-trip case of four the items are also encoded, by a fresh encoder with the same history, into a writer that accepts only 1-64 (mostly 1-3) bytes per write call (cyclic pattern of 1-3 limits, always progress, never an error): encode must return Ok and, if other bytes reach that writer than reach the Vec, they must decode to the same history (roundtrip/short-write-sink/<item class>). (b) 50%: histories of 1-11 SGR sequences (1-5 parameters in standard spelling: 0, empty, 1/22, 3/23, 4, 4:0-4:5, 21, 24, 5/25, 9/29, 30-37, 40-47, 90-97, 100-107, 38/48/58 in all four spellings) and text, written through CellWrite::tty_writer from a generated initial face with the same three chunkings into a recording parent. 60% of (b): the parent accepts every cell and every produced cell must carry the face of the reference SGR state machine. 40% of (b): the parent refuses cells (put_cell returns false) - 20% a full target that accepts 0-11 cells and then refuses until rewound, 20% a clipped target that accepts the first 1..width-1 cells of every line of 2-7 cells - and the harness rewinds it through writer.parent() before 0-3 (full) or 0-2 (clipped) generated items (a rewind is a write boundary in all three chunkings); the cells the parent accepted must be, in order, cells of the written history carrying the face the reference state machine (run over ALL bytes written so far, refused or not) gives them (writer/refusing-parent/face, /text). non-trivial = (a) a colour followed by at least one more parameter, (b) text plus a set followed later by a clear of the same attribute, two underline styles, or strike".into()
     }
 
     fn assumptions(&self) -> Vec<String> {
@@ -334,6 +556,8 @@ impl Property for C06 {
             "SGR codes a face-modification record cannot express (2, 7, 27, 39, 49, 53, 59) are outside the generated domain, as the property scopes the claim to what the record can express".into(),
             "reverse video of a Face is not expressible by the record and is ignored in (a); an initial reverse attribute persists until reset in (b)".into(),
             "RGB values of the 16 named colours are the library's pinned table".into(),
+            "contract of io::Write the statement's 'every chunking of the written bytes' relies on: write may accept any non-empty prefix of the buffer and the caller offers the rest again; into a writer that always makes progress and never fails encode must return Ok, and the bytes that reached it are the bytes written".into(),
+            "refusing parents: the statement does not say whether the writer still offers characters to a parent that has refused one, so cells may be missing; only accepted cells are judged (a subsequence of the history's cells, matched greedily on character and face), and no particular time of delivery relative to a rewind is required".into(),
         ]
     }
 }
